@@ -565,6 +565,70 @@ impl LanguageServer for Cajun {
     }
 }
 
+/// Verification hooks; compiled only under `--cfg zydeco_verif`, absent otherwise.
+///
+/// Re-exports the private synchronous pieces of the server for a simulator: the
+/// owner-side document state, the classification of a worker's outcome and
+/// what a worker computes. No behaviour is added and nothing async is touched.
+#[cfg(zydeco_verif)]
+pub mod verif {
+    use super::{AnalysisTask, ProjectState, SessionState};
+    use std::path::Path;
+    use zydeco_session::CompilerSession;
+
+    /// The owner side of the server: [`SessionState`].
+    #[derive(Default)]
+    pub struct Owner(SessionState);
+
+    impl Owner {
+        pub fn set_document(&mut self, path: &Path, source: String) -> Result<(), String> {
+            self.0.set_document(path, source)
+        }
+
+        pub fn close_document(&mut self, path: &Path) {
+            self.0.close_document(path)
+        }
+
+        pub fn revision(&self, path: &Path) -> Option<u64> {
+            self.0.revision(path).map(|revision| revision.0)
+        }
+
+        pub fn snapshot(&self) -> CompilerSession {
+            self.0.compiler.snapshot()
+        }
+
+        pub fn compiler(&self) -> &CompilerSession {
+            &self.0.compiler
+        }
+
+        pub fn compiler_mut(&mut self) -> &mut CompilerSession {
+            &mut self.0.compiler
+        }
+    }
+
+    /// [`AnalysisTask::run`]: `Some` = completed, `None` = cancelled; a payload
+    /// it re-raises keeps unwinding into the caller.
+    pub fn analysis_task_run<T>(operation: impl FnOnce() -> T) -> Option<T> {
+        match AnalysisTask::run(operation) {
+            | AnalysisTask::Completed(output) => Some(output),
+            | AnalysisTask::Cancelled => None,
+        }
+    }
+
+    /// What a worker computes: [`ProjectState::load_from_session`] and the
+    /// diagnostics it would publish for `path`, rendered.
+    pub fn load_diagnostics(path: &Path, session: &CompilerSession) -> Result<Vec<String>, String> {
+        let project = ProjectState::load_from_session(path, session, |_| ())?;
+        Ok(project
+            .diagnostics(path)
+            .into_iter()
+            .map(|diagnostic| {
+                format!("{:?} {:?} {}", diagnostic.range, diagnostic.severity, diagnostic.message)
+            })
+            .collect())
+    }
+}
+
 #[cfg(test)]
 mod tests {
     use super::{AnalysisTask, ZydecoDocument};
